@@ -859,6 +859,8 @@ func (rule *RuleExpression) checkMatrixExpression(expr *String) *ObjectType {
 	if !ok {
 		return NewEmptyObjectType()
 	}
+	// The type may be shared with the context which the expression refers to. Copy it before modifying
+	matTy = matTy.DeepCopy().(*ObjectType)
 
 	// Consider properties in include section elements since 'include' section adds matrix values
 	incTy, ok := matTy.Props["include"]
@@ -933,7 +935,8 @@ func (rule *RuleExpression) checkMatrix(m *Matrix) *ObjectType {
 				continue
 			}
 			if merged, ok := o.Merge(ty).(*ObjectType); ok {
-				o = merged
+				// Merge may return ty itself, which may be shared with a context. Copy it since o is modified later
+				o = merged.DeepCopy().(*ObjectType)
 			} else {
 				o.Loose()
 			}
